@@ -1198,7 +1198,7 @@ func (c *Ctx) c18Configs() []raceCfg {
 
 func propC18(c *Ctx) {
 	s := c.suite("race-detector", "oracle",
-		"supporting evidence (the proof part is the footprint / non-interference theorems): harness/racecheck built with -race; GOMAXPROCS in {2,4,16} x N in {2,8,64} goroutines (quick: 4 of the combinations), each goroutine with its own seed, SA key objects and messages runs a random sequence over {Encode, Decode, EncodeEncrypt, DecodeDecrypt, GenerateKeyForIKESA, GenerateKeyForChildSA, DH public value / shared key (own values, and peer values as they may arrive on the wire: any length, 0, 1, all ones, >= p), transform mapping of all registries, EAP marshal / unmarshal / AT_MAC / PRF', GenerateRandomNumber / Uint8, decoding ONE shared read-only datagram}; the per-goroutine transcript must equal the transcript of the same sequence run alone beforehand in the same process; plus runs in which crypto/rand.Reader is a concurrency-safe source written in Go, so that the race detector sees every place the library lets the source write to (3 quick, a quarter of the thorough runs), and cold-start runs (4 in the quick tier, 12 in the thorough tier) in which the goroutines make the very first calls into the library of a new process, all at once, and the solo runs follow; any race report is a violation; one evaluation = one (GOMAXPROCS, N, seed) run; non-trivial = every run")
+		"supporting evidence (the proof part is the footprint / non-interference theorems): harness/racecheck built with -race; GOMAXPROCS in {2,4,16} x N in {2,8,64} goroutines (quick: 4 of the combinations), each goroutine with its own seed, SA key objects and messages runs a random sequence over {Encode, Decode, EncodeEncrypt, DecodeDecrypt, GenerateKeyForIKESA, GenerateKeyForChildSA, DH public value / shared key (own values, and peer values as they may arrive on the wire: any length, 0, 1, all ones, >= p), transform mapping of all registries, error paths (refused EAP-AKA' packets with attributes the library has no name for, GetAttr / SetAttr refusals, undecodable datagrams through Decode and DecodeDecrypt, unsupported transforms through every registry, keys of wrong size), EAP marshal / unmarshal / AT_MAC / PRF', GenerateRandomNumber / Uint8, decoding ONE shared read-only datagram}; the per-goroutine transcript must equal the transcript of the same sequence run alone beforehand in the same process; plus runs in which crypto/rand.Reader is a concurrency-safe source written in Go, so that the race detector sees every place the library lets the source write to (3 quick, a quarter of the thorough runs), and cold-start runs (4 in the quick tier, 12 in the thorough tier) in which the goroutines make the very first calls into the library of a new process, all at once, and the solo runs follow; any race report is a violation; one evaluation = one (GOMAXPROCS, N, seed) run; non-trivial = every run")
 	src := harnessSrcDir()
 	if src == "" {
 		c.violate(Violation{Suite: s.Name, Kind: "correspondence", Class: "race-build-failed", Desc: "cannot locate harness/racecheck/main.go (set VERIF_HARNESS_SRC)", Input: "go build -race ./racecheck"})
